@@ -435,7 +435,7 @@ def match_finding(findings: list[dict], prop: str, family: str, descr: dict) -> 
         if f.get('status') != 'open' or f.get('property') != prop:
             continue
         m = f.get('matcher', {})
-        if 'family' in m and m['family'] != family:
+        if 'family' in m and not _match_value(m['family'], family):
             continue
         want = {k: v for k, v in m.items() if k != 'family'}
         if all(k in descr and _match_value(v, descr[k]) for k, v in want.items()):
